@@ -2,6 +2,7 @@ import HavocVerif.Lemmas.Queue
 import HavocVerif.Lemmas.Chunks
 import HavocVerif.Lemmas.QueueConc
 import HavocVerif.Model.Locks
+import HavocVerif.Gen.JobCodec
 /-
   C04 — Every queued task is delivered exactly once, in order, in bounded batches.
   (Sequential histories = all interleavings of atomic enqueue / check-in / clear
@@ -155,5 +156,28 @@ theorem another_objects_mutex_does_not_guard :
     guardsExpr "a.JobMtx" "pivots.Parent.JobQueue" = false ∧ guardsExpr "pivots.Parent.JobMtx" "pivots.Parent.JobQueue" = true ∧
     guardsExpr "a.JobMtx" "a.Tasks" = true ∧ guardsExpr "a.SocksCliMtx" "a.JobQueue" = false := by decide
 example : unguarded ["JobQueue"] [.lock "a.JobMtx", .access "pivots.Parent.JobQueue", .unlock "a.JobMtx"] = ["JobQueue"] := by decide
+
+/-! ### The size accounting and the cut of `GetQueuedJobs`, regenerated from agent.go on every run -/
+
+/-- what the type switch of `GetQueuedJobs` adds to `JobsSize` for one argument, read from the extracted table -/
+def tableQueueSize (a : Arg) : Option Nat :=
+  (Gen.JobCodec.queueCases.find? (·.1 == a.goType)).map fun (_, k, l) => k + if l then a.goLen else 0
+
+/-- for every argument the model's `Arg.queueSize` is what the source's type switch adds (all eleven types have a
+    case; the two variable-length ones add `len` of the argument itself) -/
+theorem queueSize_is_source_table (a : Arg) : tableQueueSize a = some a.queueSize := by
+  cases a <;> rfl
+
+/-- the loops and the cut: the batch bound is tested after a job's arguments have been added and before the job is
+    counted (`countJobsBy`), a non-empty queue always hands out one job (`numJobsBy`), the batch is the first
+    `NumJobs` entries and the queue keeps the rest (`getQueuedBy`) -/
+theorem getQueuedJobs_transcribed :
+    Gen.JobCodec.queueLoops = ["for _, job := range a.JobQueue", "for i := range job.Data", "switch job.Data[i].(type)"] ∧
+    Gen.JobCodec.queueAfterArgs = ["if JobsSize >= DEMON_MAX_RESPONSE_LENGTH { break }", "NumJobs++"] ∧
+    Gen.JobCodec.queueTail = ["if len(a.JobQueue) > 0 && NumJobs == 0 { NumJobs = 1 }",
+      "Jobs, a.JobQueue = a.JobQueue[:NumJobs], a.JobQueue[NumJobs:]", "return Jobs"] :=
+  ⟨rfl, rfl, rfl⟩
+
+example : tableQueueSize (.str [104, 105]) = some 6 ∧ tableQueueSize (.uint64 7) = some 8 := by decide
 
 end Havoc.C04
